@@ -104,7 +104,18 @@ def gen_prog(rng, name="p", depth=0, max_stmts=8, fid_base=0, p_flag=0.2, p_sub=
             nsp = len(sub["params"])
             nrq = sum(1 for p in sub["params"] if p["default"] is None)
             nargs = nrq if rng.random() < 0.45 else rng.randint(nrq, nsp)
-            st = dict(op="sub", d=len(subs) - 1, args=[gen_expr(rng, i, vinfo, np_) for _ in range(nargs)], active=gen_flag(rng, i, vinfo, np_) if sub_active else None)
+            sargs = [gen_expr(rng, i, vinfo, np_) for _ in range(nargs)]
+            pr = random.Random(rng.getrandbits(30))
+            if sub_active and nsp and sub["stmts"] and pr.random() < 0.5:
+                # a flagged nested DAG that hands one of its parameters back as an output, the parameter being
+                # bound to an explicit constant (or left to its default): deactivated, that output is None too
+                j_ = pr.randrange(nsp)
+                sub["ret"] = dict(shape="tuple", items=[first_var(sub), ["param", j_]])
+                if j_ < len(sargs) or pr.random() < 0.5:
+                    while len(sargs) <= j_:
+                        sargs.append(gen_expr(rng, i, vinfo, np_))
+                    sargs[j_] = ["const", pr.randrange(50), pr.random() < 0.6]
+            st = dict(op="sub", d=len(subs) - 1, args=sargs, active=gen_flag(rng, i, vinfo, np_) if sub_active else None)
             vinfo.append(ret_shape(sub["ret"]))
         elif r < p_sub + 0.15 and i > 0:
             # comparisons and unary operators need a term as (left) operand: only top-level parameters are
